@@ -322,6 +322,11 @@ macro_rules! impl_cache {
 
                 let (index, conflict) = self.key_to_hash.build_key(&key);
 
+                // an expired entry that has not been reclaimed yet counts as absent.
+                if only_update && self.store.get(&index, conflict).is_none() {
+                    return Ok(None);
+                }
+
                 // cost is eventually updated. The expiration must also be immediately updated
                 // to prevent items from being prematurely removed from the map.
                 let external_cost = if cost == 0 { self.coster.cost(&val) } else { 0 };
@@ -637,6 +642,11 @@ macro_rules! impl_async_cache {
                 };
 
                 let (index, conflict) = self.key_to_hash.build_key(&key);
+
+                // an expired entry that has not been reclaimed yet counts as absent.
+                if only_update && self.store.get(&index, conflict).is_none() {
+                    return Ok(None);
+                }
 
                 // cost is eventually updated. The expiration must also be immediately updated
                 // to prevent items from being prematurely removed from the map.
